@@ -89,6 +89,34 @@ pub fn tagged_identity(t: &mut Tree, tag: u8) -> Tid {
     t.list(&[i, quoted, one, nil])
 }
 
+/// `(a (i (q . tag) 2 2) 3)` — runs the program given as the first element of
+/// its solution with the rest of the solution as environment: the conditions
+/// are then *computed at run time* (atoms produced by operators reach the
+/// consensus code as heap-allocated atoms)
+pub fn tagged_eval(t: &mut Tree, tag: u8) -> Tid {
+    let i = t.atom(&[3]);
+    let q = t.atom(&[1]);
+    let tg = t.atom(&[tag]);
+    let quoted = t.pair(q, tg);
+    let two = t.atom(&[2]);
+    let sel = t.list(&[i, quoted, two, two]);
+    let three = t.atom(&[3]);
+    t.list(&[two, sel, three])
+}
+
+pub fn eval_puzzle_hashes() -> &'static Vec<[u8; 32]> {
+    static PH: OnceLock<Vec<[u8; 32]>> = OnceLock::new();
+    PH.get_or_init(|| {
+        (0..NUM_TAGS)
+            .map(|k| {
+                let mut t = Tree::new();
+                let p = tagged_eval(&mut t, k as u8 + 1);
+                treehash::tree_hash(&t, p)
+            })
+            .collect()
+    })
+}
+
 pub fn tag_puzzle_hashes() -> &'static Vec<[u8; 32]> {
     static PH: OnceLock<Vec<[u8; 32]>> = OnceLock::new();
     PH.get_or_init(|| {
@@ -240,6 +268,10 @@ pub struct GenCfg {
     /// every output affordable and distinct, every assertion matched, every
     /// self-assertion right, no opposing locks
     pub careful_rate: u16,
+    /// use the *eval* puzzles (`tagged_eval`) instead of the tagged identity
+    /// puzzles: only the puzzle hashes (and the `puzzle` node of every spend)
+    /// change; see `proglevel::coin_spends_computed`
+    pub eval_puzzles: bool,
 }
 
 impl GenCfg {
@@ -253,6 +285,7 @@ impl GenCfg {
             strict_friendly: false,
             shape_mutations: true,
             careful_rate: 100,
+            eval_puzzles: false,
         }
     }
 }
@@ -552,7 +585,7 @@ pub fn gen_bundle(s: &mut Src<'_>, cfg: &GenCfg) -> GenBundle {
     let mut t = Tree::new();
     let mut labels: Vec<String> = vec![];
     let pools = make_pools(s);
-    let phs = tag_puzzle_hashes();
+    let phs = if cfg.eval_puzzles { eval_puzzle_hashes() } else { tag_puzzle_hashes() };
     let keys = key_pool();
 
     let careful = s.chance(cfg.careful_rate);
@@ -1048,7 +1081,7 @@ pub fn gen_bundle(s: &mut Src<'_>, cfg: &GenCfg) -> GenBundle {
         }
         let cl = t.list_with_tail(&spends[i].conds.clone(), tail);
         spends[i].cond_list = cl;
-        let pz = tagged_identity(&mut t, spends[i].tag);
+        let pz = if cfg.eval_puzzles { tagged_eval(&mut t, spends[i].tag) } else { tagged_identity(&mut t, spends[i].tag) };
         spends[i].puzzle = pz;
         let pa = t.atom(&spends[i].parent);
         let ph = t.atom(&spends[i].puzzle_hash);
@@ -1072,8 +1105,9 @@ pub fn gen_bundle(s: &mut Src<'_>, cfg: &GenCfg) -> GenBundle {
                 }
                 5 => {
                     labels.push("shape:amount-redundant-zero".into());
-                    let mut b = vec![0u8];
-                    b.extend_from_slice(&enc_u64(spends[i].amount & 0x7f));
+                    // 1..9 redundant leading zero bytes in front of the canonical form
+                    let mut b = vec![0u8; 1 + s.below(9)];
+                    b.extend_from_slice(&enc_u64(spends[i].amount));
                     fields[2] = t.atom(&b);
                     spends[i].well_formed = false;
                 }
